@@ -106,10 +106,9 @@ func c07GenPT(r *vh.Rand) *c20Case {
 	for _, j := range p {
 		ops = append(ops, ul[j])
 	}
+	// compiled in the default (any-predecessor) mode: with arbitrary edges an all-predecessor run
+	// executes nodes that have no predecessor on a nil input, which is not a type question
 	comp := c20Op{Op: "compile"}
-	if r.Chance(20) {
-		comp.Mode = "all"
-	}
 	c.Ops = append(ops, comp)
 	c.Inject = "pt-heavy"
 	return c
@@ -132,11 +131,20 @@ func c07RunClass(cls string) string {
 	case strings.HasPrefix(cls, "ok:"):
 		return "ok"
 	case cls == "err":
-		return "typeErr"
+		return "err"
 	case cls == "err-panic", cls == "panic":
 		return "panic"
 	}
 	return cls
+}
+
+// the model tells a converter's error from "no task left"; from outside both are ordinary errors
+func c07ModelRunClass(m string) string {
+	switch m {
+	case "typeErr", "stuck":
+		return "err"
+	}
+	return m
 }
 
 func c07Exec(c *c20Case) c20Obs {
@@ -177,7 +185,10 @@ func c07Compare(c *c20Case, m *c07Model, obs *c20Obs) *c07Diff {
 			return &c07Diff{"C07:run-panic:model=" + m.Runs[i],
 				fmt.Sprintf("a graph that compiled panicked on a type assertion when run with a START value of dynamic type %s (the model says %s)", c.Runs[i], m.Runs[i])}
 		}
-		if m.Runs[i] != obs.Runs[i] {
+		if m.Runs[i] == "merge" {
+			continue // fan-in in one superstep: value merging is not modelled; only a panic counts
+		}
+		if c07ModelRunClass(m.Runs[i]) != obs.Runs[i] {
 			return &c07Diff{fmt.Sprintf("C07:run:model=%s,impl=%s", m.Runs[i], obs.Runs[i]),
 				fmt.Sprintf("run with a START value of dynamic type %s: the model says %s, the implementation %s", c.Runs[i], m.Runs[i], obs.Runs[i])}
 		}
